@@ -13,7 +13,7 @@ import itertools
 import operator
 from collections import OrderedDict
 
-from glom import glom, T, Fold, Sum, Flatten, Merge, flatten, merge, FoldError, GlomError
+from glom import glom, T, Fold, Sum, Flatten, Merge, flatten, merge, FoldError, GlomError, SKIP, STOP
 
 from ..engine import R, Sub
 from ..mutref import canon
@@ -138,9 +138,39 @@ def mk_init(name):
     return INITS[name]
 
 
+def is_marker(x):
+    """the second element of every menu marks where a [x] sub-spec SKIPs / STOPs"""
+    return any(type(x) is type(m()[1]) and x == m()[1] for m in MENUS.values())
+
+
+def stop_at_marker(x):
+    return STOP if is_marker(x) else x
+
+
+def skip_marker(x):
+    return SKIP if is_marker(x) else x
+
+
+SUBS = {'T': lambda: T, 'k': lambda: 'k', 'lT': lambda: [T], 'lstop': lambda: [stop_at_marker], 'lskip': lambda: [skip_marker]}
+
+
+def apply_sub(kind, items):
+    """what the sub-spec hands to the fold, per the list-spec contract: SKIP drops the item, STOP drops it and everything after it"""
+    if kind in ('T', 'k'):
+        return items
+    out = []
+    for x in items:
+        if kind == 'lstop' and is_marker(x):
+            break
+        if kind == 'lskip' and is_marker(x):
+            continue
+        out.append(x)
+    return out
+
+
 def build(spec_term):
     k = spec_term[0]
-    sub = T if spec_term[1] == 'T' else spec_term[1]
+    sub = SUBS[spec_term[1]]()
     if k == 'fold':
         init = mk_init(spec_term[2])
         return Fold(sub, init=init, op=OPS[spec_term[3]]), init
@@ -214,13 +244,13 @@ def mutable_ids(v, out=None):
 
 def one_eval(spec, spec_term, inp):
     outer, menu, idxs = inp
-    wrap = spec_term[1] != 'T'
+    wrap = spec_term[1] == 'k'
     target = mk_input(outer, menu, idxs, wrap)
     before = canon(target) if outer != 'gen' else None
     try:
-        want = ('ok', reference(spec_term, ref_items(outer, menu, idxs)))
+        want = ('ok', reference(spec_term, apply_sub(spec_term[1], ref_items(outer, menu, idxs))))
     except Exception as e:
-        want = ('err', type(e).__name__ if outer != 'scalar' else 'FoldError')
+        want = ('err', type(e).__name__ if outer != 'scalar' else 'FoldError' if spec_term[1] in ('T', 'k') else 'GlomError')
     try:
         res = glom(target, spec)
         if spec_term[0] == 'flatten' and spec_term[2] == 'lazy':
@@ -355,7 +385,7 @@ def gen_inputs(tier):
 
 def gen_specs():
     specs = []
-    for sub in ('T', 'k'):
+    for sub in SUBS:
         for init in list(INITS) + ['count', 'counttuple']:
             for op in OPS:
                 specs.append(['fold', sub, init, op])
